@@ -1111,12 +1111,13 @@ class Executor:
 
     def ex_Name(self, e, st, fr):
         n = e.id
-        if n in st.loc:
-            v = st.loc[n]
-            return [(v, st)]
+        # quantifier-bound variables and spec-function parameters shadow locals of the same name
         for b in reversed(st.bound):
             if n in b:
                 return [(b[n], st)]
+        if n in st.loc:
+            v = st.loc[n]
+            return [(v, st)]
         if n in self.table.classes:
             return [(ClassRef(n), st)]
         if n in ('bisect', 'copy', 'math', 'np', 'random', 'time', 'os', 'json', 'concurrent'):
@@ -1843,7 +1844,8 @@ class Executor:
                                      pattern=lambda x: pos[x]),
                       sym.forall_int2(0, m, lambda x, y: pos[x] < pos[y]),
                       sym.forall_int(0, n, lambda x: z3.Implies(cond_at(x), z3.And(0 <= inv[x], inv[x] < m, pos[inv[x]] == x)),
-                                     pattern=lambda x: inv[x]))
+                                     pattern=lambda x: [inv[x]] + [t_ for t_ in to_leaves(src(x), src(x).ty)[:1]
+                                                                   if z3.is_app(t_) and t_.decl().kind() == z3.Z3_OP_SELECT]))
             self.notes.add('A3: filtering comprehension yields the order-preserving sub-list of matching elements')
             arrs = [sym.defarray(s1, a, z3.substitute(t, (j, pos[a])), 'comp') for t in elt_leaves]
             res = self.new_list(s1, ety, m, arrs)
